@@ -265,6 +265,11 @@ func (ex *Exec) stringEq(a, b *SliceV) *Term {
 	if !ok {
 		// both lengths symbolic: bound by the smaller concrete capacity
 		n = 1 << 62
+		for _, l := range []*Term{a.Len, b.Len} {
+			if ub, ok := upperBound(l); ok && ub < n {
+				n = ub
+			}
+		}
 		for _, s := range []*SliceV{a, b} {
 			if s.Obj != nil && s.Obj.IsBytes {
 				if c, ok := s.Obj.Size.ConstVal(); ok && c < n {
@@ -368,6 +373,11 @@ func (ex *Exec) unop(fr *Frame, in *ssa.UnOp) Value {
 
 func (ex *Exec) load(p *Ptr, t types.Type) Value {
 	ex.sched.access(p.Obj)
+	if p.View != nil && !p.Obj.IsBytes {
+		var leaves []Value
+		flatten(getAt(p.Obj.Val, p.Path), &leaves)
+		return unflatten(ex.zero(t), &leaves)
+	}
 	if p.Obj.IsBytes {
 		if isByteType(t) {
 			return p.Obj.Top.read(p.Off)
@@ -390,6 +400,18 @@ func (ex *Exec) store(p *Ptr, v Value, t types.Type) {
 	ex.sched.access(p.Obj)
 	if p.Obj.RO {
 		panic(unsupported("store into string data"))
+	}
+	if p.View != nil && !p.Obj.IsBytes {
+		old := getAt(p.Obj.Val, p.Path)
+		var oldLeaves, newLeaves []Value
+		flatten(old, &oldLeaves)
+		flatten(v, &newLeaves)
+		if len(newLeaves) > len(oldLeaves) {
+			panic(unsupported("unsafe view store larger than the object"))
+		}
+		copy(oldLeaves, newLeaves)
+		p.Obj.Val = setAt(p.Obj.Val, p.Path, unflatten(old, &oldLeaves), TTrue)
+		return
 	}
 	if p.Obj.IsBytes {
 		switch x := v.(type) {
@@ -475,6 +497,27 @@ func (ex *Exec) convert(v Value, from, to types.Type) Value {
 	fUnsafe := fIsB && fb.Kind() == types.UnsafePointer
 	tUnsafe := tIsB && tb.Kind() == types.UnsafePointer
 	if (fp || fUnsafe) && (tp || tUnsafe) {
+		p := v.(*Ptr)
+		if isNilPtr(p) {
+			return p
+		}
+		if fp && tUnsafe {
+			q := *p
+			if q.View == nil {
+				q.ElemT = fu.(*types.Pointer).Elem()
+			}
+			return &q
+		}
+		if fUnsafe && tp {
+			q := *p
+			et := tu.(*types.Pointer).Elem()
+			if q.View != nil {
+				q.View = et
+			} else if q.ElemT != nil && !types.Identical(q.ElemT, et) {
+				q.View = et
+			}
+			return &q
+		}
 		return v
 	}
 	if tUnsafe || fUnsafe {
@@ -694,12 +737,32 @@ func (ex *Exec) copySlices(dst, src *SliceV) *Term {
 	}
 	// cells destination
 	cn, ok := n.ConstVal()
+	_, offConst := dst.Off.ConstVal()
+	if !ok && !offConst || !ok && !dst.Cap.IsConst() {
+		// general case: every cell k of the backing array becomes ite(k in [off, off+n), src[k-off], old)
+		arr, isArr := getAt(dst.Obj.Val, dst.Path).(TupleV)
+		if !isArr {
+			panic(unsupported("copy into cells slice without array backing"))
+		}
+		vals := make([]Value, len(arr))
+		for k := range arr {
+			kt := BV(64, uint64(k))
+			in := inRange(kt, dst.Off, n)
+			if in == TFalse {
+				continue
+			}
+			vals[k] = iteValue(in, ex.readElem(src, Sub(kt, dst.Off)), arr[k])
+		}
+		for k, v := range vals {
+			if v != nil {
+				arr[k] = v
+			}
+		}
+		return n
+	}
 	bound := cn
 	if !ok {
-		c, ok2 := dst.Cap.ConstVal()
-		if !ok2 {
-			panic(unsupported("copy into cells slice of symbolic capacity"))
-		}
+		c, _ := dst.Cap.ConstVal()
 		bound = c
 		if sc, ok3 := src.Len.ConstVal(); ok3 && sc < bound {
 			bound = sc
@@ -737,8 +800,8 @@ func (ex *Exec) appendSlices(s, t *SliceV, st types.Type) Value {
 		return &SliceV{Obj: s.Obj, Path: s.Path, Off: s.Off, Len: newLen, Cap: s.Cap}
 	}
 	if elemIsByte {
-		ncap := ex.freshVar("appendcap", 64)
-		ex.assume(AndB(Uge(ncap, newLen), Ult(ncap, BV(64, 1<<40))))
+		// model: growth allocates exactly the needed capacity (Go may allocate more)
+		ncap := newLen
 		top := zeroLayer()
 		if s.Obj != nil {
 			top = ex.copyInto(top, BV(64, 0), s, s.Len)
@@ -1037,7 +1100,7 @@ func (ex *Exec) callBuiltin(b *ssa.Builtin, args []Value, site ssa.Instruction) 
 		return args[0]
 	case "String": // unsafe.String(ptr, len)
 		p := args[0].(*Ptr)
-		n := toIdx(args[1].(*Term), types.Typ[types.Int])
+		n := toIdx(args[1].(*Term), b.Type().(*types.Signature).Params().At(1).Type())
 		if isNilPtr(p) {
 			return ex.stringValue("")
 		}
@@ -1056,7 +1119,7 @@ func (ex *Exec) callBuiltin(b *ssa.Builtin, args []Value, site ssa.Instruction) 
 		return &Ptr{Obj: s.Obj, Off: s.Off}
 	case "Slice": // unsafe.Slice(ptr, len)
 		p := args[0].(*Ptr)
-		n := toIdx(args[1].(*Term), types.Typ[types.Int])
+		n := toIdx(args[1].(*Term), b.Type().(*types.Signature).Params().At(1).Type())
 		if isNilPtr(p) {
 			return &SliceV{Off: BV(64, 0), Len: BV(64, 0), Cap: BV(64, 0)}
 		}
